@@ -7003,25 +7003,25 @@ class Device(utils.CompositeEventEmitter):
 
     @with_connection_from_handle
     def on_gatt_pdu(self, connection: Connection, pdu: bytes):
-        # Parse the L2CAP payload into an ATT PDU object
-        att_pdu = att.ATT_PDU.from_bytes(pdu)
-
         # Conveniently, even-numbered op codes are client->server and
         # odd-numbered ones are server->client
-        if att_pdu.op_code & 1:
-            if connection.gatt_client is None:
-                logger.warning(
-                    'No GATT client for connection 0x%04X', connection.handle
-                )
-                return
-            connection.gatt_client.on_gatt_pdu(att_pdu)
-        else:
+        if pdu and not pdu[0] & 1:
             if connection.gatt_server is None:
                 logger.warning(
                     'No GATT server for connection 0x%04X', connection.handle
                 )
                 return
-            connection.gatt_server.on_gatt_pdu(connection, att_pdu)
+            # The server parses the PDU itself (it answers requests it can't parse)
+            connection.gatt_server.on_gatt_pdu_bytes(connection, pdu)
+            return
+
+        # Parse the L2CAP payload into an ATT PDU object
+        att_pdu = att.ATT_PDU.from_bytes(pdu)
+
+        if connection.gatt_client is None:
+            logger.warning('No GATT client for connection 0x%04X', connection.handle)
+            return
+        connection.gatt_client.on_gatt_pdu(att_pdu)
 
     @with_connection_from_handle
     def on_smp_pdu(self, connection: Connection, pdu: bytes):
